@@ -306,6 +306,8 @@ class Interp:
     # ------------------------------------------------------------------ rvalues
     def cast_int(self, v, ty, signed_src=False):
         w = INT_TY[ty]
+        if isinstance(v, tuple):
+            return v        # opaque constant (e.g. libc::POLLIN): stays opaque
         if z3.is_bool(v):
             v = z3.If(v, z3.BitVecVal(1, w), z3.BitVecVal(0, w))
             return v
@@ -398,7 +400,7 @@ class Interp:
             if hasattr(ev, "discriminant"):
                 return ev.discriminant(path)
             raise Unsupported("discriminant of %r" % (ev,))
-        m = re.match(r"^(copy|move) (.+) as ([\w:<>*& ]+) \((\w+)(?:\(.*\))?\)$", rhs)
+        m = re.match(r"^(copy|move) (.+?) as (.+) \((\w+)(?:\(.*\))?\)$", rhs)
         if m:
             v = self.operand(fr, m.group(1) + " " + m.group(2), path)
             ty = m.group(3).strip()
